@@ -480,3 +480,58 @@ def mv_read(ctx):
             errs.append('val is not the list of every stored value')
         ctx.check(not errs, name, body, 'contexts = join of value clocks; val = all values', errs[0] if errs else '',
                   details={'ret': fmt(r, 6)})
+
+
+@rule('MV-EQ', {
+    'C20': 'replicas that learned the same writes must compare equal whatever the order in which the values are stored',
+}, floor=1)
+def mv_eq(ctx):
+    """MVReg::eq is order-insensitive set equality: false exactly when some value of one side has no equal on the other
+    side, both directions scanned over all values."""
+    facts = ctx.facts
+    vf = vals_field(facts)
+    body = ctx.method(MVREG, 'PartialEq', 'eq')
+    it = interp(facts, body)
+    false_s = ret_sites_by(it, lambda v: v[0] == 'const' and v[2] == 'bool' and v[1] == 0)
+    true_s = ret_sites_by(it, lambda v: v[0] == 'const' and v[2] == 'bool' and v[1] == 1)
+    scans = {}
+
+    def atom(t):
+        # `count(filter(iter(X.vals), |d| d == outer item)) == 0`
+        if t[0] == 'binop' and t[1] == 'Eq':
+            for x, y in ((t[2], t[3]), (t[3], t[2])):
+                if y[0] == 'const' and y[1] == 0 and is_call(x, 'count') and x[2] and is_call(x[2][0], 'filter'):
+                    f = x[2][0]
+                    inner_side = param_path(iter_source(f[2][0])[0])
+                    if not inner_side or inner_side[1] != (vf,) or set(iter_adaptors(f[2][0])) & LOSSY_ADAPTORS:
+                        return None
+                    for clo, m in closure_bindings(f):
+                        cb = facts.by_uid.get(clo[1])
+                        cr = drop_lv(subst(interp(facts, cb).ret, m))
+                        if cr[0] == 'call' and cinfo(cr[1])['name'] == 'eq' and len(cr[2]) == 2:
+                            a, b = versionless(cr[2][0]), versionless(cr[2][1])
+                            outer = [z for z in (a, b) if z[0] != 'item' and as_item(z) is not None]
+                            inner = [z for z in (a, b) if z[0] == 'item']
+                            if outer and inner:
+                                os_ = param_path(iter_source(as_item(outer[0]))[0])
+                                if os_ and os_[0] != inner_side[0] and os_[1] == (vf,) and whole_iteration_over(as_item(outer[0]), os_[0], (vf,)):
+                                    scans[os_[0]] = True
+                                    return 'missing%d' % os_[0]
+        return None
+    res = {}
+    for m1 in (True, False):
+        for m2 in (True, False):
+            rc = Reach(facts, body, Evaluator(facts, bool_atom=atom, assumption={'missing1': m1, 'missing2': m2}))
+            res[(m1, m2)] = (any(b in rc.reachable for b, _ in false_s), any(b in rc.reachable for b, _ in true_s))
+    errs = []
+    if set(scans) != {1, 2}:
+        errs.append('equality does not look for every value of each side among the values of the other side (scanned sides: %s)' % sorted(scans))
+    else:
+        if res[(False, False)][0] or not res[(False, False)][1]:
+            errs.append('registers holding the same values can compare unequal')
+        if res[(True, False)][1] and not res[(True, False)][0]:
+            errs.append('a value of self missing from other does not make the registers unequal')
+        if not res[(True, False)][0] or not res[(False, True)][0]:
+            errs.append('a value present on one side only does not make the registers unequal')
+    ctx.check(not errs, 'eq', body, 'order-insensitive set equality over both sides', errs[0] if errs else '',
+              details={'(own value missing in other, other value missing in own) -> (false may, true may)': {str(k): v for k, v in res.items()}})
